@@ -88,6 +88,14 @@ Theorem final_compute_is_oneshot : forall A : accum, lawful A ->
 Proof. exact final_compute_is_oneshot_gen. Qed.
 Print Assumptions final_compute_is_oneshot.
 
+(* run_length_batch_is_the_expanded_batch: the correspondence check gives a very large batch (65535 .. 200000 traces) as runs
+   (row, count) and evaluates the weighted sum [rl_oneshot] (count times the contribution of the row, by doubling): that IS the
+   one-shot result of the expanded batch.  The table bundles are lawful (table_is_lawful), so this covers them too. *)
+Theorem run_length_batch_is_the_expanded_batch : forall A : accum, lawful A ->
+  forall runs : list (a_R A * positive), rl_oneshot A runs = oneshot A (expand runs).
+Proof. exact rl_oneshot_expand. Qed.
+Print Assumptions run_length_batch_is_the_expanded_batch.
+
 (* the expected outputs the correspondence check evaluates (Accum.expected_outputs) are these one-shot results *)
 Theorem check_expects_the_oneshot_results : forall (A : accum) (seen : list (a_R A)) (h : hist A),
   expected_of A seen h = map (oneshot A) (seen_at seen h).
@@ -822,6 +830,12 @@ Example ex_ttest :
   /\ map showmv (map (oneshot ttest_inst) [[q 1]; [q 1; q 2; q 4]; [q 1; q 2; q 4; q 5]])
      = [Some (1 # 1, 0 # 1); Some (7 # 3, 14 # 9); Some (3 # 1, 5 # 2)]%Q.
 Proof. repeat split; vm_compute; reflexivity. Qed.
+
+(* ---- run-length: DPA, the trace (4, bit 1) 70000 times and (1, bit 0) 65536 times: mean difference 3 *)
+Example ex_run_length :
+  showq (rl_oneshot dpa_inst [(d1, 70000%positive); (d2, 65536%positive)]) = Some (3 # 1)%Q
+  /\ length (expand [(d1, 3%positive); (d2, 2%positive)]) = 5%nat.
+Proof. split; vm_compute; reflexivity. Qed.
 
 (* ---- a whole table: CPA with 2 words and 2 samples, the same history on whole traces; entry (w, s) pairs word w with
    sample s; the second word is constant (undefined) *)
